@@ -79,9 +79,12 @@ def run(chk):
                    "tables extracted from proc_gen/expr.rs, stringify/expr.rs, parse/expr.rs by checklib/extractors.py",
                    "GE/Model/ExprGen.lean tied to to_proc_gen_rec by byte-equality of value + hoisted statements through a cfg hook",
                    "V8 as the meaning of JavaScript (oracle)", "node runner encode/decode", "lexing of the concatenated spellings back into the model's tokens is not proved"]
-    chk.assumptions = ["callee functions are pure; throwing cases (instanceof with a non-callable right operand) count as equal when both sides throw",
+    chk.assumptions = ["parse_print (GE/Thm/C14Parse.lean): the token-level model of the expression parser (its precedence chain is the extracted parse_left_to_right! chain) reads "
+                       "back every printed expression as the tree that was printed; the model parser is compared with the real parser on every generated source "
+                       "(corr:wparse). gen_preserves (the value of the generated JavaScript) is established by the V8 oracle only",
+                       "callee functions are pure; throwing cases (instanceof with a non-callable right operand) count as equal when both sides throw",
                        "float literals are carried as Rust-printed text; their value is compared through V8 only"]
-    chk.model_tie([("GE.Thm.C02Expr", THEOREMS)])
+    chk.model_tie([("GE.Thm.C02Expr", THEOREMS), ("GE.Thm.C14Parse", ["GE.Parse.parse_print", "GE.Parse.parse_print_id", "GE.Parse.bin_table", "GE.Parse.un_table"])])
 
     trees = eg.enum_depth2()
     # member reads on every data field (the pool gives each of them a falsy non-nullish value in some environment:
